@@ -56,6 +56,11 @@ def bases(tier):
     bro2['term'] = {'c': ('T',)}
     bro2['w'] = IR.generic_weights(bro2, stride=7)
     out.append(('D', bro2))
+    # internal nodes touched by no edge, with domains of different sizes (each multiplies the rule's weight by its own size)
+    iso = {'start': 'S', 'nl': {'T': 2, 'A': 3, 'B': 4}, 'term': {'c': ('T',)}, 'nt': {'S': ()},
+           'rules': [('S', ('T', 'A', 'B'), (), (('c', (0,)),))]}
+    iso['w'] = IR.generic_weights(iso, stride=7)
+    out.append(('E', iso))
     T = IR.recursive_templates()
     for name in T:
         if name == 'lin-three':
